@@ -270,6 +270,21 @@ def run_shard(ctx):
                 if d:
                     ctx.viol(f"differs:{fmt}:path-odd-suffix:{d[0]}", f"[{fmt} saved as {stem + suffix!r}] differs from dict reference (fallback name {used_stem!r}) in {d[0]}: {d[1]}"[:900],
                              common.witness(form, fmt=fmt, channel="path", variant=f"odd-suffix{suffix}", sheets=_jsonable(sheets)))
+        # (2e) cell text full of pipe characters (a regex, a list): CSV must still be recognised as CSV when no file_type is given
+        if i % 5 == 3:
+            ps = dict(sheets)
+            h, rows = ps["survey"]
+            if "constraint" not in h:
+                h = h + ["constraint"]
+                rows = [r + [None] for r in rows]
+            ci = h.index("constraint")
+            tgt = [k for k, r in enumerate(rows) if r[0] in ("text", "integer", "decimal")]
+            if tgt:
+                rows = [list(r) for r in rows]
+                rows[tgt[0]][ci] = "regex(., 'a|b|c|d|e|f|g')"
+                ps["survey"] = (h, rows)
+                ctx.ctr("pipe_text_cases")
+                compare_all(ctx, form, ps, sig, "pipes-in-cell", ["csv", "xlsx"], rng, all_channels=True)
         # (3) empty runs
         k = rng.choice([1, 2, 59, 60, 60])
         sh = rng.choice([s for s in ("survey", "choices") if s in sheets and len(sheets[s][1]) > 1])
